@@ -12,6 +12,7 @@ Helper lemmas: `Proofs/Share.lean`, `Proofs/SharePoly.lean`, `Proofs/Lagrange.le
 import DosModel.Proofs.Share
 import DosModel.Proofs.SharePoly
 import DosModel.Proofs.ShareZq
+import DosModel.Gen.PkgVars
 
 set_option linter.unusedSectionVars false
 
@@ -287,6 +288,29 @@ theorem c09_code_shape :
       "1| return Acc, nil"
     ] :=
   ⟨rfl, rfl, rfl, rfl, rfl, rfl, rfl, rfl, rfl, rfl, rfl, rfl, rfl, rfl, rfl, rfl, rfl, rfl, rfl, rfl, rfl, rfl, rfl, rfl, rfl⟩
+
+/-- **package `share` carries no state from one call to the next** (regenerated from /repo on every run by
+`go/extract/pkgvars`: ALL package-level `var` declarations of the directory): the only package-level
+variables are the two error values, and nothing outside `init` writes them. A memo table, a pool, a cached
+scalar added to the package breaks this obligation. It is what justifies modelling a sequence of calls as
+the sequence of the models of the calls (`hist_is_pointwise`). -/
+theorem c09_no_package_state :
+    Gen.PkgVars.share.map (fun v => (v.file, v.name)) = [("poly.go", "errorGroups"), ("poly.go", "errorCoeffs")]
+    ∧ Gen.PkgVars.share.all (fun v => !v.written) = true := by decide
+
+/-- **a recovery is a function of its arguments only**: in the model of a call history (`hist` lines of
+the correspondence run, `Share.histOut` – what `drv_c09` executes) the answer of call `k` is the answer of
+that call alone, whatever was recovered before – other index sequences, other groups, other polynomials. -/
+theorem hist_is_pointwise (calls : List String) (k : Nat) (hk : k < calls.length) :
+    (Share.histOut calls)[k]? = some (Share.stepOne ("rt" :: (calls[k]).splitOn "~")) := by
+  simp [Share.histOut, hk]
+
+/-- … hence calls can be inserted before, removed from, or appended to a history without changing what the
+other calls answer -/
+theorem hist_call_erasure (pre post : List String) (c : String) :
+    Share.histOut (pre ++ c :: post)
+      = Share.histOut pre ++ Share.stepOne ("rt" :: c.splitOn "~") :: Share.histOut post := by
+  simp [Share.histOut]
 
 /-! ### 1. reconstruction
 
@@ -609,6 +633,15 @@ example : pubEqual (P := Zq 7) ⟨0, 1, [3, 2]⟩ ⟨0, 1, [3, 2, 5]⟩ = false
 
 example : CharGt (Zq 7) 5 := zq_charGt 7 5 (by decide)
 
-example : priEval ([3, 2, 5] : List (Zq 7)) (-1) = 3 := (eval_at_minus_one_is_secret [3, 2, 5]).2
+/-- a history whose two index sequences (1,12) and (11,2) concatenate to the same digits: the second call
+answers what it answers alone (and so does the first, in either order of the calls) -/
+example : (Share.histOut ["ed:3,2~1~13~1,12", "ed:3,2~1~13~11,2"])[1]?
+    = some (Share.stepOne ("rt" :: ("ed:3,2~1~13~11,2").splitOn "~")) :=
+  hist_is_pointwise _ 1 (by decide)
+
+example : Share.histOut ([] ++ "ed:3,2~1~13~1,12" :: ["ed:3,2~1~13~11,2"])
+    = Share.histOut [] ++ Share.stepOne ("rt" :: ("ed:3,2~1~13~1,12").splitOn "~")
+        :: Share.histOut ["ed:3,2~1~13~11,2"] :=
+  hist_call_erasure [] ["ed:3,2~1~13~11,2"] "ed:3,2~1~13~1,12"
 
 end Dos.Props.C09
